@@ -1,7 +1,1395 @@
-//! C04: not implemented yet.
+//! C04: close, reopen and checkpoint preserve the logical database.
+//!
+//! Generated DDL/DML histories (constraint-clean, WAL on and off) with events inserted at random points:
+//! `db.checkpoint()`, `PRAGMA wal_checkpoint`, an auto-checkpoint (threshold lowered by pragma, fired by COMMIT),
+//! `close()` + `Database::open`, dropping the handle + `Database::open`. Around every event the harness takes an
+//! OBSERVATION VECTOR through the public API and requires before == after. The comparison is model-free, so
+//! defects in DML semantics cannot leak in. Per table (every name the history ever created, live or dropped):
+//!   schema        column names and width of `SELECT *` (or the error class)
+//!   rows          bag of `SELECT *`
+//!   count_star    `SELECT COUNT(*)`
+//!   index_lookup  `WHERE col = v` for present and absent values and a range, on the primary key and every indexed column
+//!   index_order   `ORDER BY col` / `ORDER BY col DESC` on those columns (key sequence and bag)
+//!   auto_increment two auto-assigned inserts that straddle the event must get consecutive ids; for close/drop+open
+//!                  the same is required of an insert into a COPY of the closed directory (does not perturb the history)
+//!   error:<class> the event itself, or a clean insert / read-back right after it, fails
+//! Signature = C04/<event>/<wal_on|wal_off>/<observation>[/<ddl context of the table>].
+use crate::report::{catch, Ctx};
+use crate::rng::{fnv, Rng};
+use crate::sqlm::db::{is_panic, panic_tag, Db, Outcome, Scratch};
+use crate::sqlm::val::{row_key, Row, V};
 use crate::Args;
+use serde_json::{json, Value as J};
+use std::collections::{BTreeMap, BTreeSet};
+use std::path::Path;
 
-pub fn run(_a: &Args) -> i32 {
-    println!("INCONCLUSIVE property=C04 reason=check not implemented yet");
-    2
+// ---------------------------------------------------------------- small model used only to GENERATE clean statements
+
+#[derive(Clone, Copy, Debug, PartialEq, Eq)]
+enum Ty {
+    Big,
+    Int,
+    Dbl,
+    Text,
+    Bool,
+}
+
+impl Ty {
+    fn sql(&self) -> &'static str {
+        match self {
+            Ty::Big => "BIGINT",
+            Ty::Int => "INT",
+            Ty::Dbl => "DOUBLE",
+            Ty::Text => "TEXT",
+            Ty::Bool => "BOOLEAN",
+        }
+    }
+    fn letter(&self) -> char {
+        match self {
+            Ty::Big => 'b',
+            Ty::Int => 'i',
+            Ty::Dbl => 'd',
+            Ty::Text => 'x',
+            Ty::Bool => 'o',
+        }
+    }
+    fn of_name(n: &str) -> Ty {
+        match n.chars().next().unwrap_or('b') {
+            'i' => Ty::Int,
+            'd' => Ty::Dbl,
+            'x' => Ty::Text,
+            'o' => Ty::Bool,
+            _ => Ty::Big,
+        }
+    }
+}
+
+#[derive(Clone, Debug)]
+struct GCol {
+    name: String,
+    ty: Ty,
+    not_null: bool,
+    default: Option<V>,
+}
+
+#[derive(Clone, Debug)]
+struct GTab {
+    name: String,
+    autoinc: bool,
+    cols: Vec<GCol>,
+    /// id first
+    rows: Vec<Row>,
+    idx: Vec<(String, String)>,
+    next_auto: i64,
+}
+
+// ---------------------------------------------------------------- operations
+
+#[derive(Clone, Debug, PartialEq)]
+enum Ev {
+    Checkpoint,
+    PragmaCheckpoint,
+    AutoCheckpoint { with_update: bool, threshold: u32 },
+    CloseOpen,
+    DropOpen,
+}
+
+impl Ev {
+    fn name(&self) -> &'static str {
+        match self {
+            Ev::Checkpoint => "checkpoint",
+            Ev::PragmaCheckpoint => "pragma_wal_checkpoint",
+            Ev::AutoCheckpoint { .. } => "auto_checkpoint",
+            Ev::CloseOpen => "close_open",
+            Ev::DropOpen => "drop_open",
+        }
+    }
+    fn is_reopen(&self) -> bool {
+        matches!(self, Ev::CloseOpen | Ev::DropOpen)
+    }
+}
+
+/// catalog facts the runner needs to plan its probes; applied only when the statement succeeded
+#[derive(Clone, Debug)]
+enum Meta {
+    None,
+    /// an INSERT of n rows (each consumes one row id)
+    Rows(usize),
+    CreateTable { name: String, autoinc: bool, cols: Vec<(String, bool)> },
+    DropTable { name: String },
+    CreateIndex { name: String, table: String, col: String },
+    DropIndex { name: String },
+    Truncate { table: String },
+    AddColumn { table: String, col: String },
+    DropColumn { table: String, col: String },
+    RenameColumn { table: String, old: String, new: String },
+}
+
+#[derive(Clone, Debug)]
+enum Op {
+    Sql { sql: String, meta: Meta, tag: &'static str },
+    Event { ev: Ev, model: Vec<(String, usize)> },
+}
+
+impl Op {
+    fn text(&self) -> String {
+        match self {
+            Op::Sql { sql, .. } => elide(sql),
+            Op::Event { ev, .. } => format!("-- EVENT {:?}", ev),
+        }
+    }
+}
+
+const PAD: char = '~';
+
+fn elide(s: &str) -> String {
+    if s.len() <= 300 {
+        return s.to_string();
+    }
+    let mut out = String::new();
+    let mut run = 0usize;
+    for ch in s.chars() {
+        if ch == PAD {
+            run += 1;
+            continue;
+        }
+        if run > 0 {
+            out.push_str(&format!("<~x{}>", run));
+            run = 0;
+        }
+        out.push(ch);
+    }
+    if run > 0 {
+        out.push_str(&format!("<~x{}>", run));
+    }
+    if out.len() > 1500 {
+        format!("{}...<{} bytes>", &out[..1200], out.len())
+    } else {
+        out
+    }
+}
+
+// ---------------------------------------------------------------- generator
+
+#[derive(Clone, Debug, Default)]
+struct Feats {
+    wal: bool,
+    index: bool,
+    autoinc: bool,
+    long_text: bool,
+    big_table: bool,
+    ddl_extra: bool,
+    alter: bool,
+}
+
+impl Feats {
+    fn tags(&self) -> Vec<&'static str> {
+        let mut v = vec![if self.wal { "wal_on" } else { "wal_off" }];
+        for (b, n) in [(self.index, "index"), (self.autoinc, "autoinc"), (self.long_text, "long_text"), (self.big_table, "big_table"), (self.ddl_extra, "ddl_extra"), (self.alter, "alter")] {
+            if b {
+                v.push(n);
+            }
+        }
+        v
+    }
+}
+
+struct Gen<'a> {
+    rng: &'a mut Rng,
+    f: Feats,
+    tabs: BTreeMap<String, GTab>,
+    ops: Vec<Op>,
+    uniq: i64,
+    ncol: u32,
+    nidx: u32,
+    ntab: u32,
+    reopens: u32,
+    events: u32,
+}
+
+fn vals_sql(r: &[V]) -> String {
+    format!("({})", r.iter().map(|v| v.sql()).collect::<Vec<_>>().join(", "))
+}
+
+impl<'a> Gen<'a> {
+    fn u(&mut self) -> i64 {
+        self.uniq += 1;
+        self.uniq
+    }
+    fn sql(&mut self, sql: String, meta: Meta, tag: &'static str) {
+        self.ops.push(Op::Sql { sql, meta, tag });
+    }
+    fn val(&mut self, c: &GCol) -> V {
+        if !c.not_null && c.default.is_none() && self.rng.chance(12, 100) {
+            return V::Null;
+        }
+        let u = self.u();
+        match c.ty {
+            Ty::Big => V::Int(if self.rng.chance(1, 12) { -(5_000_000 + u) } else { 1000 + u * 7 }),
+            Ty::Int => V::Int(self.rng.range(-3, 8)),
+            Ty::Dbl => V::Float(u as f64 + 0.5),
+            Ty::Bool => V::Bool(self.rng.chance(1, 2)),
+            Ty::Text => {
+                if self.f.long_text && self.rng.chance(1, 4) {
+                    let len = *self.rng.pick(&[900usize, 998, 999, 1000, 1001, 1002, 1100, 2000, 5000, 17000]);
+                    let mut s = format!("L{}-", u);
+                    while s.len() < len {
+                        s.push(PAD);
+                    }
+                    V::Text(s)
+                } else if self.rng.chance(1, 6) {
+                    V::Text(self.rng.pick(&["a", "b", "ab", ""]).to_string())
+                } else {
+                    V::Text(format!("v{}", u))
+                }
+            }
+        }
+    }
+    fn create_table(&mut self) {
+        self.ntab += 1;
+        let name = format!("t{}", self.ntab);
+        self.create_table_named(&name);
+    }
+    fn create_table_named(&mut self, name: &str) {
+        let autoinc = self.f.autoinc && self.rng.chance(2, 3);
+        let n = self.rng.usize(1, 4);
+        let mut cols = vec![];
+        for _ in 0..n {
+            let ty = *self.rng.pick(&[Ty::Big, Ty::Big, Ty::Int, Ty::Int, Ty::Dbl, Ty::Text, Ty::Text, Ty::Bool]);
+            self.ncol += 1;
+            let mut c = GCol { name: format!("{}{}", ty.letter(), self.ncol), ty, not_null: self.rng.chance(1, 5), default: None };
+            if !c.not_null && self.rng.chance(1, 8) {
+                c.default = Some(match ty {
+                    Ty::Big => V::Int(-3),
+                    Ty::Int => V::Int(42),
+                    Ty::Dbl => V::Float(2.5),
+                    Ty::Text => V::Text("dflt".into()),
+                    Ty::Bool => V::Bool(true),
+                });
+            }
+            cols.push(c);
+        }
+        let mut parts = vec![format!("id BIGINT PRIMARY KEY{}", if autoinc { " AUTO_INCREMENT" } else { "" })];
+        for c in &cols {
+            let mut s = format!("{} {}", c.name, c.ty.sql());
+            if c.not_null {
+                s.push_str(" NOT NULL");
+            }
+            if let Some(d) = &c.default {
+                s.push_str(" DEFAULT ");
+                s.push_str(&match d {
+                    V::Int(i) => format!("{}", i),
+                    V::Float(f) => format!("{:?}", f),
+                    V::Text(t) => format!("'{}'", t),
+                    V::Bool(b) => (if *b { "TRUE" } else { "FALSE" }).to_string(),
+                    _ => "NULL".into(),
+                });
+            }
+            parts.push(s);
+        }
+        let sql = format!("CREATE TABLE {} ({})", name, parts.join(", "));
+        let meta = Meta::CreateTable { name: name.to_string(), autoinc, cols: cols.iter().map(|c| (c.name.clone(), c.not_null)).collect() };
+        self.sql(sql, meta, "create_table");
+        self.tabs.insert(name.to_string(), GTab { name: name.to_string(), autoinc, cols, rows: vec![], idx: vec![], next_auto: 1 });
+    }
+    fn pick_tab(&mut self) -> Option<String> {
+        let names: Vec<String> = self.tabs.keys().cloned().collect();
+        if names.is_empty() {
+            None
+        } else {
+            Some(self.rng.pick(&names).clone())
+        }
+    }
+    fn insert(&mut self, tn: &str, n: usize) {
+        let Some(t) = self.tabs.get(tn).cloned() else { return };
+        let auto = t.autoinc && self.rng.chance(3, 4);
+        let mut rows_sql = vec![];
+        let mut new_rows = vec![];
+        let mut next_auto = t.next_auto;
+        for _ in 0..n {
+            let mut r: Row = vec![];
+            let id = if auto {
+                let k = next_auto;
+                next_auto += 1;
+                k
+            } else if t.autoinc {
+                // explicit id above the counter advances it
+                let k = next_auto + 400 + self.rng.range(0, 3);
+                next_auto = k + 1;
+                k
+            } else {
+                // non-monotonic arrival of unique ids
+                let u = self.u();
+                if self.rng.chance(1, 3) {
+                    1_000_000 - u
+                } else {
+                    u
+                }
+            };
+            r.push(V::Int(id));
+            for c in &t.cols {
+                r.push(self.val(c));
+            }
+            if auto {
+                rows_sql.push(vals_sql(&r[1..]));
+            } else {
+                rows_sql.push(vals_sql(&r));
+            }
+            new_rows.push(r);
+        }
+        let names: Vec<String> = t.cols.iter().map(|c| c.name.clone()).collect();
+        let collist = if auto { names.join(", ") } else { format!("id, {}", names.join(", ")) };
+        self.sql(format!("INSERT INTO {} ({}) VALUES {}", tn, collist, rows_sql.join(", ")), Meta::Rows(n), "insert");
+        let t = self.tabs.get_mut(tn).unwrap();
+        t.rows.extend(new_rows);
+        t.next_auto = next_auto;
+    }
+    fn update(&mut self, tn: &str) {
+        let Some(t) = self.tabs.get(tn).cloned() else { return };
+        if t.rows.is_empty() || t.cols.is_empty() {
+            return;
+        }
+        let ci = self.rng.usize(0, t.cols.len() - 1);
+        let c = t.cols[ci].clone();
+        let v = self.val(&c);
+        let v = if v.is_null() && c.default.is_some() { V::Int(1) } else { v };
+        let v = if v.is_null() || matches!((&v, c.ty), (V::Int(_), Ty::Big | Ty::Int)) || !matches!(v, V::Int(_)) { v } else { V::Null };
+        // by primary key, or by a small-domain INT column (several rows)
+        let int_cols: Vec<usize> = t.cols.iter().enumerate().filter(|(i, c)| c.ty == Ty::Int && *i != ci).map(|(i, _)| i).collect();
+        if !int_cols.is_empty() && self.rng.chance(1, 4) {
+            let k = *self.rng.pick(&int_cols);
+            let key = self.rng.range(-3, 8);
+            self.sql(format!("UPDATE {} SET {} = {} WHERE {} = {}", tn, c.name, v.sql(), t.cols[k].name, key), Meta::None, "update");
+            let t = self.tabs.get_mut(tn).unwrap();
+            for r in t.rows.iter_mut() {
+                if matches!(&r[k + 1], V::Int(x) if *x == key) {
+                    r[ci + 1] = v.clone();
+                }
+            }
+        } else {
+            let ri = self.rng.usize(0, t.rows.len() - 1);
+            let id = t.rows[ri][0].clone();
+            self.sql(format!("UPDATE {} SET {} = {} WHERE id = {}", tn, c.name, v.sql(), id.sql()), Meta::None, "update");
+            self.tabs.get_mut(tn).unwrap().rows[ri][ci + 1] = v;
+        }
+    }
+    fn delete(&mut self, tn: &str) {
+        let Some(t) = self.tabs.get(tn).cloned() else { return };
+        if t.rows.is_empty() {
+            return;
+        }
+        let r = self.rng.below(10);
+        if r < 6 {
+            let ri = self.rng.usize(0, t.rows.len() - 1);
+            let id = t.rows[ri][0].clone();
+            self.sql(format!("DELETE FROM {} WHERE id = {}", tn, id.sql()), Meta::None, "delete");
+            self.tabs.get_mut(tn).unwrap().rows.remove(ri);
+        } else if r < 8 && t.rows.len() >= 4 {
+            // a contiguous id range (empties leaves of multi-page trees)
+            let mut ids: Vec<i64> = t.rows.iter().filter_map(|r| if let V::Int(i) = r[0] { Some(i) } else { None }).collect();
+            ids.sort();
+            let a = self.rng.usize(0, ids.len() - 2);
+            let b = (a + self.rng.usize(1, (ids.len() / 2).max(1))).min(ids.len() - 1);
+            let (lo, hi) = (ids[a], ids[b]);
+            self.sql(format!("DELETE FROM {} WHERE id >= {} AND id <= {}", tn, V::Int(lo).sql(), V::Int(hi).sql()), Meta::None, "delete_range");
+            self.tabs.get_mut(tn).unwrap().rows.retain(|r| !matches!(r[0], V::Int(i) if i >= lo && i <= hi));
+        } else {
+            let int_cols: Vec<usize> = t.cols.iter().enumerate().filter(|(_, c)| c.ty == Ty::Int).map(|(i, _)| i).collect();
+            if int_cols.is_empty() {
+                return;
+            }
+            let k = *self.rng.pick(&int_cols);
+            let key = self.rng.range(-3, 8);
+            self.sql(format!("DELETE FROM {} WHERE {} = {}", tn, t.cols[k].name, key), Meta::None, "delete");
+            self.tabs.get_mut(tn).unwrap().rows.retain(|r| !matches!(&r[k + 1], V::Int(x) if *x == key));
+        }
+    }
+    fn create_index(&mut self, tn: &str) {
+        let Some(t) = self.tabs.get(tn).cloned() else { return };
+        let cand: Vec<GCol> = t.cols.iter().filter(|c| matches!(c.ty, Ty::Big | Ty::Int | Ty::Text) && !t.idx.iter().any(|(_, ic)| ic == &c.name)).cloned().collect();
+        if cand.is_empty() {
+            return;
+        }
+        let c = self.rng.pick(&cand).clone();
+        self.nidx += 1;
+        let name = format!("ix{}", self.nidx);
+        // BIGINT values are unique by construction, so a UNIQUE index stays constraint-clean
+        let unique = c.ty == Ty::Big && c.default.is_none() && self.rng.chance(1, 4);
+        self.sql(format!("CREATE {}INDEX {} ON {} ({})", if unique { "UNIQUE " } else { "" }, name, tn, c.name), Meta::CreateIndex { name: name.clone(), table: tn.to_string(), col: c.name.clone() }, "create_index");
+        self.tabs.get_mut(tn).unwrap().idx.push((name, c.name));
+    }
+    fn ddl_extra(&mut self) {
+        let Some(tn) = self.pick_tab() else { return };
+        let t = self.tabs.get(&tn).cloned().unwrap();
+        match self.rng.below(4) {
+            0 if !t.idx.is_empty() => {
+                let (name, _) = self.rng.pick(&t.idx).clone();
+                self.sql(format!("DROP INDEX {}", name), Meta::DropIndex { name: name.clone() }, "drop_index");
+                self.tabs.get_mut(&tn).unwrap().idx.retain(|(n, _)| n != &name);
+            }
+            1 => {
+                self.sql(format!("TRUNCATE TABLE {}", tn), Meta::Truncate { table: tn.clone() }, "truncate");
+                self.tabs.get_mut(&tn).unwrap().rows.clear();
+                let n = self.rng.usize(1, 5);
+                self.insert(&tn, n);
+            }
+            2 => {
+                self.sql(format!("DROP TABLE {}", tn), Meta::DropTable { name: tn.clone() }, "drop_table");
+                self.tabs.remove(&tn);
+                if self.rng.chance(1, 2) {
+                    self.create_table_named(&tn);
+                } else {
+                    self.create_table();
+                }
+                let last = self.tabs.keys().last().cloned().unwrap();
+                let n = self.rng.usize(2, 6);
+                self.insert(&last, n);
+            }
+            _ => {
+                self.create_table();
+                let last = format!("t{}", self.ntab);
+                let n = self.rng.usize(2, 6);
+                self.insert(&last, n);
+            }
+        }
+    }
+    fn alter(&mut self) {
+        let Some(tn) = self.pick_tab() else { return };
+        let t = self.tabs.get(&tn).cloned().unwrap();
+        match self.rng.below(3) {
+            0 => {
+                let ty = *self.rng.pick(&[Ty::Big, Ty::Int, Ty::Text, Ty::Bool]);
+                self.ncol += 1;
+                let c = GCol { name: format!("{}{}", ty.letter(), self.ncol), ty, not_null: false, default: None };
+                self.sql(format!("ALTER TABLE {} ADD COLUMN {} {}", tn, c.name, ty.sql()), Meta::AddColumn { table: tn.clone(), col: c.name.clone() }, "add_column");
+                let t = self.tabs.get_mut(&tn).unwrap();
+                t.cols.push(c);
+                for r in t.rows.iter_mut() {
+                    r.push(V::Null);
+                }
+            }
+            1 if t.cols.len() >= 2 => {
+                let ci = self.rng.usize(0, t.cols.len() - 1);
+                let c = t.cols[ci].clone();
+                self.sql(format!("ALTER TABLE {} DROP COLUMN {}", tn, c.name), Meta::DropColumn { table: tn.clone(), col: c.name.clone() }, "drop_column");
+                let t = self.tabs.get_mut(&tn).unwrap();
+                t.cols.remove(ci);
+                t.idx.retain(|(_, ic)| ic != &c.name);
+                for r in t.rows.iter_mut() {
+                    r.remove(ci + 1);
+                }
+            }
+            _ if !t.cols.is_empty() => {
+                let ci = self.rng.usize(0, t.cols.len() - 1);
+                let c = t.cols[ci].clone();
+                self.ncol += 1;
+                let new = format!("{}{}r", c.ty.letter(), self.ncol);
+                self.sql(format!("ALTER TABLE {} RENAME COLUMN {} TO {}", tn, c.name, new), Meta::RenameColumn { table: tn.clone(), old: c.name.clone(), new: new.clone() }, "rename_column");
+                let t = self.tabs.get_mut(&tn).unwrap();
+                t.cols[ci].name = new.clone();
+                for i in t.idx.iter_mut() {
+                    if i.1 == c.name {
+                        i.1 = new.clone();
+                    }
+                }
+            }
+            _ => {}
+        }
+    }
+    fn event(&mut self) {
+        let mut kinds: Vec<Ev> = vec![Ev::Checkpoint, Ev::PragmaCheckpoint];
+        if self.f.wal {
+            kinds.push(Ev::AutoCheckpoint { with_update: false, threshold: 1 });
+            kinds.push(Ev::AutoCheckpoint { with_update: true, threshold: 1 });
+            kinds.push(Ev::Checkpoint);
+        }
+        if self.reopens < 6 {
+            kinds.extend([Ev::CloseOpen, Ev::CloseOpen, Ev::DropOpen, Ev::DropOpen]);
+        }
+        let mut ev = self.rng.pick(&kinds).clone();
+        if let Ev::AutoCheckpoint { with_update, .. } = ev {
+            ev = Ev::AutoCheckpoint { with_update, threshold: self.rng.range(1, 3) as u32 };
+        }
+        if ev.is_reopen() {
+            self.reopens += 1;
+        }
+        self.events += 1;
+        let model = self.tabs.values().map(|t| (t.name.clone(), t.rows.len())).collect();
+        self.ops.push(Op::Event { ev, model });
+    }
+}
+
+fn gen_history(rng: &mut Rng, target: usize) -> (Vec<Op>, Feats) {
+    let f = Feats { wal: rng.chance(1, 2), index: rng.chance(2, 3), autoinc: rng.chance(1, 2), long_text: rng.chance(1, 3), big_table: rng.chance(1, 3), ddl_extra: rng.chance(1, 4), alter: rng.chance(1, 10) };
+    let mut g = Gen { rng, f: f.clone(), tabs: BTreeMap::new(), ops: vec![], uniq: 0, ncol: 0, nidx: 0, ntab: 0, reopens: 0, events: 0 };
+    if f.wal {
+        g.sql("PRAGMA wal = ON".into(), Meta::None, "pragma");
+    }
+    let ntab = g.rng.usize(1, 2);
+    for _ in 0..ntab {
+        g.create_table();
+    }
+    if f.big_table {
+        // 70+ rows so that multi-page trees are checkpointed and reopened
+        let tn = g.pick_tab().unwrap();
+        let total = g.rng.usize(70, 130);
+        let mut done = 0;
+        while done < total {
+            let n = g.rng.usize(15, 30).min(total - done);
+            g.insert(&tn, n);
+            done += n;
+        }
+    }
+    let mut guard = 0;
+    while g.ops.len() < target && guard < 300 {
+        guard += 1;
+        let r = g.rng.below(100);
+        let Some(tn) = g.pick_tab() else {
+            g.create_table();
+            continue;
+        };
+        if r < 30 {
+            let n = g.rng.usize(1, 5);
+            g.insert(&tn, n);
+        } else if r < 45 {
+            g.update(&tn);
+        } else if r < 57 {
+            g.delete(&tn);
+        } else if r < 65 && f.index {
+            g.create_index(&tn);
+        } else if r < 72 && f.ddl_extra {
+            g.ddl_extra();
+        } else if r < 78 && f.alter {
+            g.alter();
+        } else if r < 97 && g.events < 12 {
+            g.event();
+        }
+    }
+    // always end with an event (most often a reopen)
+    if g.reopens < 6 {
+        g.reopens = 5;
+    }
+    g.event();
+    (g.ops, f)
+}
+
+// ---------------------------------------------------------------- observation vector
+
+/// stable class of an error message: quoted identifiers and digits removed, first words
+fn err_class(e: &str) -> String {
+    if is_panic(e) {
+        return format!("panic_{}", panic_tag(e));
+    }
+    let mut s = String::new();
+    let mut in_q = false;
+    for ch in e.chars() {
+        if ch == '\'' || ch == '"' {
+            in_q = !in_q;
+            continue;
+        }
+        if !in_q {
+            s.push(ch);
+        }
+    }
+    s.split(|c: char| !c.is_ascii_alphabetic()).filter(|w| !w.is_empty()).take(8).collect::<Vec<_>>().join("_").to_lowercase()
+}
+
+#[derive(Clone, Debug)]
+struct TabMeta {
+    autoinc: bool,
+    live: bool,
+    /// non-id columns: (name, not_null)
+    cols: Vec<(String, bool)>,
+    idx: Vec<(String, String)>,
+    /// DDL context for the signature (None = plain table)
+    ctx: Option<&'static str>,
+}
+
+#[derive(Clone, Debug)]
+struct Probe {
+    kind: &'static str, // index_lookup | index_order
+    sql: String,
+    /// position of the key column in SELECT * (for order probes)
+    key_pos: Option<usize>,
+}
+
+#[derive(Clone, Debug, PartialEq)]
+enum Res {
+    Err(String),
+    /// (sorted row keys, key-column sequence for ORDER BY probes)
+    Rows(Vec<String>, Vec<String>),
+}
+
+#[derive(Clone, Debug)]
+struct TabObs {
+    /// Ok((column names, raw rows)) or the error class
+    star: Result<(Vec<String>, Vec<Row>), String>,
+    count: Result<String, String>,
+    probes: Vec<Res>,
+}
+
+fn query_cols(db: &mut Db, sql: &str) -> Result<(Vec<String>, Vec<Row>), String> {
+    match catch(|| db.db.query_with_columns(sql)) {
+        Ok(Ok((cols, rows))) => Ok((cols, crate::sqlm::db::conv_rows(&rows))),
+        Ok(Err(e)) => Err(format!("{:#}", e)),
+        Err(p) => Err(format!("PANIC: {}", p)),
+    }
+}
+
+fn sorted_keys(rows: &[Row]) -> Vec<String> {
+    let mut k: Vec<String> = rows.iter().map(|r| row_key(r, false)).collect();
+    k.sort();
+    k
+}
+
+/// choose the probes of one table from its "before" scan
+fn plan_probes(name: &str, m: &TabMeta, cols: &[String], rows: &[Row]) -> Vec<Probe> {
+    let mut out = vec![];
+    let mut targets: Vec<String> = vec!["id".to_string()];
+    for (_, c) in &m.idx {
+        if !targets.contains(c) {
+            targets.push(c.clone());
+        }
+    }
+    for col in targets {
+        let Some(p) = cols.iter().position(|c| c.eq_ignore_ascii_case(&col)) else { continue };
+        let mut present: Vec<V> = vec![];
+        for r in rows {
+            if let Some(v) = r.get(p) {
+                if matches!(v, V::Int(_) | V::Text(_)) && !present.iter().any(|x| x.key(false) == v.key(false)) {
+                    present.push(v.clone());
+                }
+            }
+        }
+        present.sort_by(|a, b| a.order_cmp(b));
+        let mut eqs: Vec<V> = vec![];
+        if !present.is_empty() {
+            eqs.push(present[0].clone());
+            eqs.push(present[present.len() / 2].clone());
+            eqs.push(present[present.len() - 1].clone());
+        }
+        let is_text = present.iter().any(|v| matches!(v, V::Text(_))) || col.starts_with('x');
+        eqs.push(if is_text { V::Text("absent-key".into()) } else { V::Int(-987_654_321) });
+        eqs.dedup_by(|a, b| a.key(false) == b.key(false));
+        for v in eqs {
+            out.push(Probe { kind: "index_lookup", sql: format!("SELECT * FROM {} WHERE {} = {}", name, col, v.sql()), key_pos: None });
+        }
+        if present.len() >= 3 {
+            let lo = &present[present.len() / 4];
+            let hi = &present[(present.len() * 3) / 4];
+            out.push(Probe { kind: "index_lookup", sql: format!("SELECT * FROM {} WHERE {} >= {} AND {} <= {}", name, col, lo.sql(), col, hi.sql()), key_pos: None });
+            out.push(Probe { kind: "index_lookup", sql: format!("SELECT * FROM {} WHERE {} > {}", name, col, hi.sql()), key_pos: None });
+        }
+        out.push(Probe { kind: "index_order", sql: format!("SELECT * FROM {} ORDER BY {}", name, col), key_pos: Some(p) });
+        out.push(Probe { kind: "index_order", sql: format!("SELECT * FROM {} ORDER BY {} DESC", name, col), key_pos: Some(p) });
+    }
+    out
+}
+
+fn run_probe(db: &mut Db, p: &Probe) -> Res {
+    match db.query(&p.sql) {
+        Err(e) => Res::Err(err_class(&e)),
+        Ok(rows) => {
+            let seq = match p.key_pos {
+                Some(k) => rows.iter().map(|r| r.get(k).map(|v| v.key(false)).unwrap_or_default()).collect(),
+                None => vec![],
+            };
+            Res::Rows(sorted_keys(&rows), seq)
+        }
+    }
+}
+
+fn observe_table(db: &mut Db, name: &str, probes: Option<&[Probe]>, m: &TabMeta) -> (TabObs, Vec<Probe>) {
+    let star = query_cols(db, &format!("SELECT * FROM {}", name)).map_err(|e| err_class(&e));
+    let count = match db.query(&format!("SELECT COUNT(*) FROM {}", name)) {
+        Ok(r) => Ok(r.first().and_then(|r| r.first()).map(|v| v.key(true)).unwrap_or_else(|| "no row".into())),
+        Err(e) => Err(err_class(&e)),
+    };
+    let plan: Vec<Probe> = match probes {
+        Some(p) => p.to_vec(),
+        None => match &star {
+            Ok((cols, rows)) => plan_probes(name, m, cols, rows),
+            Err(_) => vec![],
+        },
+    };
+    let res = plan.iter().map(|p| run_probe(db, p)).collect();
+    (TabObs { star, count, probes: res }, plan)
+}
+
+fn first_diff(a: &[String], b: &[String]) -> J {
+    let sa: BTreeSet<&String> = a.iter().collect();
+    let sb: BTreeSet<&String> = b.iter().collect();
+    let only_before: Vec<String> = sa.difference(&sb).take(3).map(|s| elide(&s.replace('\u{1}', " | "))).collect();
+    let only_after: Vec<String> = sb.difference(&sa).take(3).map(|s| elide(&s.replace('\u{1}', " | "))).collect();
+    json!({"before_rows": a.len(), "after_rows": b.len(), "only_before": only_before, "only_after": only_after})
+}
+
+/// first observation that changed: (observation name, detail)
+fn compare_obs(name: &str, b: &TabObs, a: &TabObs, plan: &[Probe]) -> Option<(String, J)> {
+    match (&b.star, &a.star) {
+        (Ok(_), Err(e)) => return Some((format!("error:{}", e), json!({"table": name, "sql": format!("SELECT * FROM {}", name), "before": "ok", "after_error": e}))),
+        (Err(e), Ok(_)) => return Some(("schema".into(), json!({"table": name, "before_error": e, "after": "select works"}))),
+        (Err(e1), Err(e2)) => {
+            if e1 != e2 {
+                return Some((format!("error:{}", e2), json!({"table": name, "before_error": e1, "after_error": e2})));
+            }
+            return None;
+        }
+        (Ok((c1, r1)), Ok((c2, r2))) => {
+            if c1 != c2 {
+                return Some(("schema".into(), json!({"table": name, "before_columns": c1, "after_columns": c2})));
+            }
+            let (k1, k2) = (sorted_keys(r1), sorted_keys(r2));
+            if k1 != k2 {
+                return Some(("rows".into(), json!({"table": name, "sql": format!("SELECT * FROM {}", name), "diff": first_diff(&k1, &k2)})));
+            }
+        }
+    }
+    if b.count != a.count {
+        return Some(("count_star".into(), json!({"table": name, "before": format!("{:?}", b.count), "after": format!("{:?}", a.count), "rows_in_scan": b.star.as_ref().map(|s| s.1.len()).unwrap_or(0)})));
+    }
+    for (i, p) in plan.iter().enumerate() {
+        let (Some(x), Some(y)) = (b.probes.get(i), a.probes.get(i)) else { continue };
+        if x == y {
+            continue;
+        }
+        let detail = match (x, y) {
+            (Res::Rows(k1, s1), Res::Rows(k2, s2)) => {
+                if k1 != k2 {
+                    json!({"bag": first_diff(k1, k2)})
+                } else {
+                    let pos = s1.iter().zip(s2.iter()).position(|(u, v)| u != v);
+                    json!({"same_bag_different_key_sequence_at": pos, "before": s1.iter().take(8).collect::<Vec<_>>(), "after": s2.iter().take(8).collect::<Vec<_>>()})
+                }
+            }
+            (x, y) => json!({"before": elide(&format!("{:?}", x)), "after": elide(&format!("{:?}", y))}),
+        };
+        if let (Res::Rows(..), Res::Err(e)) = (x, y) {
+            return Some((format!("error:{}", e), json!({"table": name, "sql": elide(&p.sql), "detail": detail})));
+        }
+        return Some((p.kind.to_string(), json!({"table": name, "sql": elide(&p.sql), "detail": detail})));
+    }
+    None
+}
+
+// ---------------------------------------------------------------- running a history
+
+#[derive(Clone, Debug)]
+struct Viol {
+    sig: String,
+    assertion: String,
+    detail: J,
+    op_index: usize,
+}
+
+#[derive(Default)]
+struct RunOut {
+    /// the violation that ended the history
+    viol: Option<Viol>,
+    /// violations after which the history continued (row-id counter restart: worked around by burning ids)
+    soft: Vec<Viol>,
+    events_judged: u64,
+    /// (event name, did measurable work) per judged event
+    event_kinds: Vec<(&'static str, bool)>,
+    stmt_errors: u64,
+    stmt_error_samples: Vec<String>,
+    probes_run: u64,
+    probes_using_index: u64,
+    autoinc_pairs: u64,
+    copy_probes: u64,
+    model_agree: u64,
+    model_desync: u64,
+    max_rows: usize,
+    toast_values: u64,
+    log: Vec<String>,
+}
+
+fn copy_dir(src: &Path, dst: &Path) -> std::io::Result<()> {
+    std::fs::create_dir_all(dst)?;
+    for e in std::fs::read_dir(src)? {
+        let e = e?;
+        let to = dst.join(e.file_name());
+        if e.file_type()?.is_dir() {
+            copy_dir(&e.path(), &to)?;
+        } else {
+            std::fs::copy(e.path(), &to)?;
+        }
+    }
+    Ok(())
+}
+
+/// names and sizes of the files under <db>/wal (to see whether a checkpoint removed or truncated segments)
+fn wal_files(dir: &Path) -> Vec<(String, u64)> {
+    let mut v: Vec<(String, u64)> = match std::fs::read_dir(dir.join("wal")) {
+        Ok(rd) => rd.filter_map(|e| e.ok()).map(|e| (e.file_name().to_string_lossy().to_string(), e.metadata().map(|m| m.len()).unwrap_or(0))).collect(),
+        Err(_) => vec![],
+    };
+    v.sort();
+    v
+}
+
+fn frame_count(db: &mut Db) -> Option<u64> {
+    match catch(|| db.db.execute("PRAGMA wal_frame_count")) {
+        Ok(Ok(turdb::ExecuteResult::Pragma { value, .. })) => value.and_then(|v| v.parse().ok()),
+        _ => None,
+    }
+}
+
+/// values for a clean insert issued by the runner itself (ranges disjoint from the generator's)
+fn runner_row(m: &TabMeta, n: i64) -> (Vec<String>, Vec<V>) {
+    let mut names = vec![];
+    let mut vals = vec![];
+    for (c, _) in &m.cols {
+        names.push(c.clone());
+        vals.push(match Ty::of_name(c) {
+            Ty::Big => V::Int(900_000_000 + n),
+            Ty::Int => V::Int(77), // outside the generator's domain, so its UPDATE/DELETE keys never match runner rows
+            Ty::Dbl => V::Float(n as f64 + 0.125),
+            Ty::Text => V::Text(format!("probe{}", n)),
+            Ty::Bool => V::Bool(true),
+        });
+    }
+    (names, vals)
+}
+
+/// consume `k` row ids in a fresh table (work-around for the row-id counter restarting at 1 on open)
+fn burn_row_ids(db: &mut Db, session: usize, k: usize) {
+    let bt = format!("zz_burn{}", session);
+    let _ = db.exec(&format!("CREATE TABLE {} (id BIGINT PRIMARY KEY)", bt));
+    let vals: Vec<String> = (1..=k).map(|n| format!("({})", n)).collect();
+    let _ = db.exec(&format!("INSERT INTO {} (id) VALUES {}", bt, vals.join(", ")));
+}
+
+/// insert one row with an auto-assigned id; returns the id
+fn auto_insert(db: &mut Db, name: &str, m: &TabMeta, n: i64) -> Result<i64, String> {
+    let (names, vals) = runner_row(m, n);
+    if names.is_empty() {
+        return Err("no columns".into());
+    }
+    let sql = format!("INSERT INTO {} ({}) VALUES {} RETURNING id", name, names.join(", "), vals_sql(&vals));
+    match db.exec(&sql) {
+        Ok(Outcome::Dml(_, Some(rows))) => match rows.first().and_then(|r| r.first()) {
+            Some(V::Int(i)) => Ok(*i),
+            other => Err(format!("RETURNING id gave {:?}", other)),
+        },
+        Ok(other) => Err(format!("unexpected result {:?}", other).chars().take(120).collect()),
+        Err(e) => Err(e),
+    }
+}
+
+fn run_history(ops: &[Op], wal: bool, dir: &Path, probe_dir: &Path, full: bool) -> RunOut {
+    let mut out = RunOut::default();
+    let _ = std::fs::remove_dir_all(dir);
+    let mut db = match Db::create(dir) {
+        Ok(d) => Some(d),
+        Err(e) => {
+            out.viol = Some(Viol { sig: format!("C04/create/{}/error:{}", if wal { "wal_on" } else { "wal_off" }, err_class(&e)), assertion: "create".into(), detail: json!({"error": e}), op_index: 0 });
+            return out;
+        }
+    };
+    let walt = if wal { "wal_on" } else { "wal_off" };
+    let mut metas: BTreeMap<String, TabMeta> = BTreeMap::new();
+    let mut runner_n: i64 = 0;
+    // rows the runner itself inserted per table (the generator's model does not know them)
+    let mut runner_added: BTreeMap<String, usize> = BTreeMap::new();
+    // row ids consumed in this session / largest number any session consumed (bound on the largest row key)
+    let mut session_ids: usize = 0;
+    let mut max_key_bound: usize = 0;
+    let mut sessions: usize = 0;
+    for (i, op) in ops.iter().enumerate() {
+        out.log.push(op.text());
+        match op {
+            Op::Sql { sql, meta, .. } => {
+                let d = db.as_mut().unwrap();
+                if let Meta::Rows(n) = meta {
+                    session_ids += *n;
+                }
+                match d.exec(sql) {
+                    Err(e) => {
+                        out.stmt_errors += 1;
+                        if out.stmt_error_samples.len() < 3 {
+                            out.stmt_error_samples.push(format!("{} -> {}", elide(sql).chars().take(160).collect::<String>(), e.chars().take(160).collect::<String>()));
+                        }
+                    }
+                    Ok(_) => match meta {
+                        Meta::None | Meta::Rows(_) => {}
+                        Meta::CreateTable { name, autoinc, cols } => {
+                            let recreated = metas.contains_key(name);
+                            metas.insert(name.clone(), TabMeta { autoinc: *autoinc, live: true, cols: cols.clone(), idx: vec![], ctx: if recreated { Some("recreated_table") } else { None } });
+                        }
+                        Meta::DropTable { name } => {
+                            runner_added.remove(name);
+                            if let Some(m) = metas.get_mut(name) {
+                                m.live = false;
+                                m.idx.clear();
+                                m.ctx = Some("dropped_table");
+                            }
+                        }
+                        Meta::CreateIndex { name, table, col } => {
+                            if let Some(m) = metas.get_mut(table) {
+                                m.idx.push((name.clone(), col.clone()));
+                            }
+                        }
+                        Meta::DropIndex { name } => {
+                            for m in metas.values_mut() {
+                                m.idx.retain(|(n, _)| n != name);
+                            }
+                        }
+                        Meta::Truncate { table } => {
+                            runner_added.remove(table);
+                            if let Some(m) = metas.get_mut(table) {
+                                m.ctx = Some("truncated_table");
+                            }
+                        }
+                        Meta::AddColumn { table, col } => {
+                            if let Some(m) = metas.get_mut(table) {
+                                m.cols.push((col.clone(), false));
+                                m.ctx = Some("add_column");
+                            }
+                        }
+                        Meta::DropColumn { table, col } => {
+                            if let Some(m) = metas.get_mut(table) {
+                                m.cols.retain(|(c, _)| c != col);
+                                m.idx.retain(|(_, c)| c != col);
+                                m.ctx = Some("drop_column");
+                            }
+                        }
+                        Meta::RenameColumn { table, old, new } => {
+                            if let Some(m) = metas.get_mut(table) {
+                                for c in m.cols.iter_mut() {
+                                    if &c.0 == old {
+                                        c.0 = new.clone();
+                                    }
+                                }
+                                for x in m.idx.iter_mut() {
+                                    if &x.1 == old {
+                                        x.1 = new.clone();
+                                    }
+                                }
+                                m.ctx = Some("rename_column");
+                            }
+                        }
+                    },
+                }
+            }
+            Op::Event { ev, model } => {
+                let evn = ev.name();
+                let mk = |obs: &str, ctx: Option<&'static str>| match ctx {
+                    Some(c) => format!("C04/{}/{}/{}/{}", evn, walt, obs, c),
+                    None => format!("C04/{}/{}/{}", evn, walt, obs),
+                };
+                let d = db.as_mut().unwrap();
+                // ---- anchor of the AUTO_INCREMENT observation: an auto-assigned insert right before the event
+                let mut anchors: BTreeMap<String, i64> = BTreeMap::new();
+                for (name, m) in metas.iter() {
+                    if m.live && m.autoinc && !m.cols.is_empty() {
+                        runner_n += 1;
+                        session_ids += 1;
+                        if let Ok(k) = auto_insert(d, name, m, runner_n) {
+                            anchors.insert(name.clone(), k);
+                        }
+                    }
+                }
+                // ---- before
+                let mut before: BTreeMap<String, (TabObs, Vec<Probe>)> = BTreeMap::new();
+                for (name, m) in metas.iter() {
+                    let (o, plan) = observe_table(d, name, None, m);
+                    if let Ok((_, rows)) = &o.star {
+                        out.max_rows = out.max_rows.max(rows.len());
+                        out.toast_values += rows.iter().flatten().filter(|v| matches!(v, V::Text(s) if s.len() >= 1000)).count() as u64;
+                    }
+                    out.probes_run += plan.len() as u64;
+                    // EXPLAIN: does an equality probe on a secondary index actually use it?
+                    for p in plan.iter().filter(|p| p.kind == "index_lookup" && !p.sql.contains(" id ")).take(1) {
+                        if let Some(plan_text) = d.explain(&p.sql) {
+                            if plan_text.to_lowercase().contains("index") {
+                                out.probes_using_index += 1;
+                            }
+                        }
+                    }
+                    before.insert(name.clone(), (o, plan));
+                }
+                if full {
+                    // generator model (row counts) vs observation, for tables whose ids the generator chooses itself
+                    let agree = model.iter().all(|(t, n)| match (metas.get(t), before.get(t)) {
+                        (Some(m), Some((o, _))) if !m.autoinc => o.star.as_ref().map(|s| s.1.len()).ok() == Some(*n + runner_added.get(t).copied().unwrap_or(0)),
+                        _ => true,
+                    });
+                    if agree {
+                        out.model_agree += 1;
+                    } else {
+                        out.model_desync += 1;
+                    }
+                }
+                let frames_before = frame_count(d);
+                let wal_before = wal_files(dir);
+                // ---- the event
+                let mut ev_err: Option<String> = None;
+                let mut copy_ids: BTreeMap<String, Result<i64, String>> = BTreeMap::new();
+                match ev {
+                    Ev::Checkpoint => match catch(|| d.db.checkpoint()) {
+                        Ok(Ok(_)) => {}
+                        Ok(Err(e)) => ev_err = Some(format!("{:#}", e)),
+                        Err(p) => ev_err = Some(format!("PANIC: {}", p)),
+                    },
+                    Ev::PragmaCheckpoint => {
+                        if let Err(e) = d.exec("PRAGMA wal_checkpoint") {
+                            ev_err = Some(e);
+                        }
+                    }
+                    Ev::AutoCheckpoint { with_update, threshold } => {
+                        let mut stmts = vec![format!("PRAGMA wal_checkpoint_threshold = {}", threshold), "BEGIN".to_string()];
+                        if *with_update {
+                            // rewrite one stored value with itself: dirties pages, changes nothing
+                            'find: for (name, (o, _)) in before.iter() {
+                                if !metas.get(name).map(|m| m.live).unwrap_or(false) {
+                                    continue;
+                                }
+                                if let Ok((cols, rows)) = &o.star {
+                                    for r in rows.iter().rev() {
+                                        for (ci, v) in r.iter().enumerate().skip(1) {
+                                            if matches!(v, V::Int(_) | V::Text(_)) && matches!(r[0], V::Int(_)) && cols[0].eq_ignore_ascii_case("id") {
+                                                stmts.push(format!("UPDATE {} SET {} = {} WHERE id = {}", name, cols[ci], v.sql(), r[0].sql()));
+                                                break 'find;
+                                            }
+                                        }
+                                    }
+                                }
+                            }
+                        }
+                        stmts.push("COMMIT".to_string());
+                        stmts.push("PRAGMA wal_checkpoint_threshold = 1000".to_string());
+                        for s in stmts {
+                            out.log.push(format!("   {}", elide(&s)));
+                            if let Err(e) = d.exec(&s) {
+                                ev_err = Some(format!("{} -> {}", elide(&s).chars().take(80).collect::<String>(), e));
+                                let _ = d.exec("ROLLBACK");
+                                break;
+                            }
+                        }
+                    }
+                    Ev::CloseOpen | Ev::DropOpen => {
+                        let old = db.take().unwrap();
+                        if *ev == Ev::CloseOpen {
+                            match catch(|| old.db.close()) {
+                                Ok(Ok(_)) => {}
+                                Ok(Err(e)) => ev_err = Some(format!("close: {:#}", e)),
+                                Err(p) => ev_err = Some(format!("PANIC: {}", p)),
+                            }
+                        }
+                        drop(old);
+                        // AUTO_INCREMENT through a COPY of the closed directory (does not perturb the history)
+                        if !anchors.is_empty() && ev_err.is_none() {
+                            let _ = std::fs::remove_dir_all(probe_dir);
+                            if copy_dir(dir, probe_dir).is_ok() {
+                                if let Ok(mut c) = Db::open(probe_dir) {
+                                    burn_row_ids(&mut c, 0, max_key_bound.max(session_ids) + 2);
+                                    for (name, _) in anchors.iter() {
+                                        runner_n += 1;
+                                        copy_ids.insert(name.clone(), auto_insert(&mut c, name, &metas[name], runner_n));
+                                        out.copy_probes += 1;
+                                    }
+                                    let _ = catch(|| c.db.close());
+                                }
+                            }
+                            let _ = std::fs::remove_dir_all(probe_dir);
+                        }
+                        if ev_err.is_none() {
+                            match Db::open(dir) {
+                                Ok(mut nd) => {
+                                    if wal {
+                                        if let Err(e) = nd.exec("PRAGMA wal = ON") {
+                                            ev_err = Some(format!("PRAGMA wal = ON after open: {}", e));
+                                        }
+                                    }
+                                    db = Some(nd);
+                                }
+                                Err(e) => ev_err = Some(format!("open: {}", e)),
+                            }
+                        }
+                    }
+                }
+                out.events_judged += 1;
+                if let Some(e) = ev_err {
+                    let obs = format!("error:{}", err_class(&e));
+                    out.viol = Some(Viol { sig: mk(&obs, None), assertion: obs, detail: json!({"event": format!("{:?}", ev), "error": e}), op_index: i });
+                    return out;
+                }
+                let d = db.as_mut().unwrap();
+                let frames_after = frame_count(d);
+                let worked = match ev {
+                    Ev::CloseOpen | Ev::DropOpen => before.values().any(|(o, _)| o.star.as_ref().map(|s| !s.1.is_empty()).unwrap_or(false)),
+                    _ => wal && frames_before.unwrap_or(0) > 0 && (frames_after.unwrap_or(0) < frames_before.unwrap_or(0) || wal_files(dir) != wal_before),
+                };
+                out.event_kinds.push((evn, worked));
+                // ---- after: the same probes
+                for (name, (bo, plan)) in before.iter() {
+                    let m = &metas[name];
+                    let (ao, _) = observe_table(d, name, Some(plan), m);
+                    if let Some((obs, detail)) = compare_obs(name, bo, &ao, plan) {
+                        out.viol = Some(Viol { sig: mk(&obs, m.ctx), assertion: obs, detail: json!({"event": format!("{:?}", ev), "frames_before": frames_before, "frames_after": frames_after, "change": detail}), op_index: i });
+                        return out;
+                    }
+                }
+                // ---- a clean insert with a fresh explicit id must work and be readable after the event
+                let mut retry: Vec<(String, String, i64)> = vec![];
+                let mut fresh: Vec<(String, String, i64)> = vec![];
+                for (name, m) in metas.iter() {
+                    if !m.live || m.autoinc {
+                        continue;
+                    }
+                    let Some((bo, _)) = before.get(name) else { continue };
+                    let Ok((cols, _)) = &bo.star else { continue };
+                    let want_cols: BTreeSet<String> = std::iter::once("id".to_string()).chain(m.cols.iter().map(|c| c.0.to_lowercase())).collect();
+                    let have: BTreeSet<String> = cols.iter().map(|c| c.to_lowercase()).collect();
+                    if want_cols != have {
+                        continue; // shape unknown to the runner (can happen while shrinking): not judged
+                    }
+                    runner_n += 1;
+                    let id = 700_000_000 + runner_n;
+                    let (names, vals) = runner_row(m, runner_n);
+                    let sql = if names.is_empty() { format!("INSERT INTO {} (id) VALUES ({})", name, id) } else { format!("INSERT INTO {} (id, {}) VALUES ({}, {})", name, names.join(", "), id, vals.iter().map(|v| v.sql()).collect::<Vec<_>>().join(", ")) };
+                    fresh.push((name.clone(), sql, id));
+                }
+                for (name, sql, id) in fresh {
+                    session_ids += 1;
+                    match d.exec(&sql) {
+                        Ok(_) => retry.push((name, sql, id)),
+                        Err(e) if ev.is_reopen() && e.contains("key already exists") => {
+                            // row-id counter restarts at 1 on open: report once per history, then work around it
+                            if !out.soft.iter().any(|v| v.assertion == "error:insert_after_key_already_exists") {
+                                out.soft.push(Viol { sig: mk("error:insert_after_key_already_exists", None), assertion: "error:insert_after_key_already_exists".into(), detail: json!({"event": format!("{:?}", ev), "sql": elide(&sql), "error": e, "note": "a clean INSERT with a fresh primary key right after reopening"}), op_index: i });
+                            }
+                            let _ = name;
+                            retry.push((String::new(), sql, id));
+                        }
+                        Err(e) => {
+                            let obs = format!("error:insert_after_{}", err_class(&e));
+                            out.viol = Some(Viol { sig: mk(&obs, metas[&name].ctx), assertion: obs, detail: json!({"event": format!("{:?}", ev), "sql": elide(&sql), "error": e}), op_index: i });
+                            return out;
+                        }
+                    }
+                }
+                if ev.is_reopen() {
+                    // advance the row-id counter past every key any earlier session can have produced
+                    max_key_bound = max_key_bound.max(session_ids);
+                    sessions += 1;
+                    let k = max_key_bound + 2;
+                    burn_row_ids(d, sessions, k);
+                    session_ids = k;
+                    out.log.push(format!("   -- (harness) CREATE TABLE zz_burn{}; INSERT {} rows into it to advance the row-id counter", sessions, k));
+                }
+                for (name, sql, id) in retry {
+                    // name is empty for an insert that has to be repeated after the work-around
+                    let tname = if name.is_empty() { sql.split_whitespace().nth(2).unwrap_or("").to_string() } else { name.clone() };
+                    if name.is_empty() {
+                        session_ids += 1;
+                        if let Err(e) = d.exec(&sql) {
+                            let obs = format!("error:insert_after_{}", err_class(&e));
+                            out.viol = Some(Viol { sig: mk(&obs, metas.get(&tname).and_then(|m| m.ctx)), assertion: obs, detail: json!({"event": format!("{:?}", ev), "sql": elide(&sql), "error": e, "note": "still failing after the row-id counter was advanced"}), op_index: i });
+                            return out;
+                        }
+                    }
+                    *runner_added.entry(tname.clone()).or_insert(0) += 1;
+                    let q = format!("SELECT * FROM {} WHERE id = {}", tname, id);
+                    match d.query(&q) {
+                        Ok(rows) if rows.len() == 1 => {}
+                        other => {
+                            out.viol = Some(Viol { sig: mk("rows", metas.get(&tname).and_then(|m| m.ctx)), assertion: "rows".into(), detail: json!({"event": format!("{:?}", ev), "inserted_after_event": elide(&sql), "read_back": q, "got": format!("{:?}", other).chars().take(300).collect::<String>()}), op_index: i });
+                            return out;
+                        }
+                    }
+                }
+                // ---- AUTO_INCREMENT: the pair of inserts straddling the event gets consecutive ids
+                for (name, k) in anchors.iter() {
+                    let m = &metas[name];
+                    if let Some(Ok(kc)) = copy_ids.get(name) {
+                        if *kc != k + 1 {
+                            out.viol = Some(Viol { sig: mk("auto_increment", m.ctx), assertion: "auto_increment".into(), detail: json!({"event": format!("{:?}", ev), "table": name, "id_assigned_before_event": k, "id_assigned_in_copy_of_closed_directory": kc, "want": k + 1}), op_index: i });
+                            return out;
+                        }
+                    }
+                    runner_n += 1;
+                    session_ids += 1;
+                    match auto_insert(d, name, m, runner_n) {
+                        Ok(k2) => {
+                            out.autoinc_pairs += 1;
+                            if k2 != k + 1 {
+                                out.viol = Some(Viol { sig: mk("auto_increment", m.ctx), assertion: "auto_increment".into(), detail: json!({"event": format!("{:?}", ev), "table": name, "id_assigned_before_event": k, "id_assigned_after_event": k2, "want": k + 1}), op_index: i });
+                                return out;
+                            }
+                        }
+                        Err(e) => {
+                            let obs = format!("error:insert_after_{}", err_class(&e));
+                            out.viol = Some(Viol { sig: mk(&obs, m.ctx), assertion: obs, detail: json!({"event": format!("{:?}", ev), "table": name, "error": e, "note": "the same auto-assigned insert succeeded right before the event"}), op_index: i });
+                            return out;
+                        }
+                    }
+                }
+            }
+        }
+    }
+    if let Some(d) = db.take() {
+        let _ = catch(|| d.db.close());
+    }
+    out
+}
+
+// ---------------------------------------------------------------- shrinking
+
+fn shrink(ops: &[Op], wal: bool, sig: &str, dir: &Path, probe_dir: &Path, budget: usize) -> Vec<Op> {
+    let mut cur: Vec<Op> = ops.to_vec();
+    let mut runs = 0usize;
+    let fails = |cand: &[Op], runs: &mut usize| -> bool {
+        *runs += 1;
+        let o = run_history(cand, wal, dir, probe_dir, false);
+        o.viol.iter().chain(o.soft.iter()).any(|v| v.sig == sig)
+    };
+    {
+        let o = run_history(&cur, wal, dir, probe_dir, false);
+        if let Some(v) = o.viol.iter().chain(o.soft.iter()).find(|v| v.sig == sig) {
+            cur.truncate(v.op_index + 1);
+        }
+    }
+    let mut n = 2usize;
+    while cur.len() >= 2 && runs < budget {
+        let chunk = (cur.len() + n - 1) / n;
+        let mut reduced = false;
+        let mut start = 0;
+        while start < cur.len() && runs < budget {
+            let end = (start + chunk).min(cur.len());
+            let cand: Vec<Op> = cur[..start].iter().chain(cur[end..].iter()).cloned().collect();
+            if !cand.is_empty() && fails(&cand, &mut runs) {
+                cur = cand;
+                n = n.saturating_sub(1).max(2);
+                reduced = true;
+                break;
+            }
+            start = end;
+        }
+        if !reduced {
+            if chunk <= 1 {
+                break;
+            }
+            n = (n * 2).min(cur.len());
+        }
+    }
+    cur
+}
+
+// ---------------------------------------------------------------- entry point
+
+pub fn run(a: &Args) -> i32 {
+    let mut ctx = Ctx::new(
+        "C04",
+        &a.tier,
+        a.seed,
+        "exploration",
+        "generated constraint-clean histories (15..45 statements: CREATE TABLE with id BIGINT PRIMARY KEY [AUTO_INCREMENT] and 1..4 typed columns, multi-row INSERT with non-monotonic ids, UPDATE/DELETE by key, by a small-domain column and by id range, CREATE [UNIQUE] INDEX, and in strata DROP INDEX / TRUNCATE / DROP+CREATE TABLE / ALTER TABLE, 70..130-row tables, TEXT values of 900..17000 bytes around the 1000-byte TOAST threshold), WAL ON (`PRAGMA wal = ON`, re-issued after every open) and OFF, with up to 12 events per history (at most 6 reopen cycles): db.checkpoint(), PRAGMA wal_checkpoint, auto-checkpoint (PRAGMA wal_checkpoint_threshold = 1..3; BEGIN; [UPDATE that rewrites a stored value with itself;] COMMIT), close()+open, drop+open. Oracle: observation vector before == after (model-free): column names, row bag, COUNT(*), equality/range/ORDER BY probes on the primary key and every indexed column with identical SQL on both sides, consecutive auto-assigned ids across the event (and in a copy of the closed directory), and a clean insert + read-back after the event. evaluations = judged events; distinct_nontrivial = distinct (history, event) pairs in which the event did measurable work (reopen of non-empty tables, or WAL frame count dropped)",
+    );
+    let mut master = Rng::derive(a.seed, 4);
+    let quick = ctx.quick();
+    let budget_s = if quick { 40.0 } else { 480.0 };
+    let max_hist = if cfg!(miri) { 0 } else if quick { 150 } else { 2500 };
+    let max_shrinks = if quick { 4 } else { 30 };
+    let scratch = Scratch::new("c04");
+    // every history gets its own generator seeded from the C04 stream; workers only overlap the fsync waits
+    let seeds: std::sync::Arc<Vec<u64>> = std::sync::Arc::new((0..max_hist).map(|_| master.next()).collect());
+    let next = std::sync::Arc::new(std::sync::atomic::AtomicUsize::new(0));
+    let stop = std::sync::Arc::new(std::sync::atomic::AtomicBool::new(false));
+    let (tx, rx) = std::sync::mpsc::channel::<(Vec<Op>, Feats, RunOut)>();
+    let nthreads = 6;
+    let mut handles = vec![];
+    for w in 0..nthreads {
+        let (seeds, next, stop, tx) = (seeds.clone(), next.clone(), stop.clone(), tx.clone());
+        let dir = scratch.root.join(format!("w{}", w));
+        let pdir = scratch.root.join(format!("w{}copy", w));
+        handles.push(std::thread::spawn(move || loop {
+            if stop.load(std::sync::atomic::Ordering::Relaxed) {
+                break;
+            }
+            let idx = next.fetch_add(1, std::sync::atomic::Ordering::Relaxed);
+            if idx >= seeds.len() {
+                break;
+            }
+            let mut rng = Rng::new(seeds[idx]);
+            let target = rng.usize(15, 45);
+            let (ops, feats) = gen_history(&mut rng, target);
+            let out = run_history(&ops, feats.wal, &dir, &pdir, true);
+            if tx.send((ops, feats, out)).is_err() {
+                break;
+            }
+        }));
+    }
+    drop(tx);
+    let mut shrunk: BTreeSet<String> = BTreeSet::new();
+    let mut first_of_sig: BTreeMap<String, J> = BTreeMap::new();
+    let mut by_event: BTreeMap<String, u64> = BTreeMap::new();
+    let mut by_feat: BTreeMap<&'static str, u64> = BTreeMap::new();
+    for (ops, feats, out) in rx {
+        if ctx.elapsed() > budget_s {
+            stop.store(true, std::sync::atomic::Ordering::Relaxed);
+        }
+        ctx.evals(out.events_judged);
+        ctx.count("histories", 1);
+        ctx.count("statement_errors_not_judged", out.stmt_errors);
+        ctx.count("probes_planned", out.probes_run);
+        ctx.count("histories_where_explain_shows_index_use", (out.probes_using_index > 0) as u64);
+        ctx.count("auto_increment_pairs", out.autoinc_pairs);
+        ctx.count("auto_increment_copy_probes", out.copy_probes);
+        ctx.count("events_row_counts_equal_generator_model", out.model_agree);
+        ctx.count("events_row_counts_differ_from_generator_model_before_event", out.model_desync);
+        ctx.count("toast_sized_values_observed", out.toast_values);
+        if out.max_rows >= 70 {
+            ctx.count("histories_with_70plus_row_table_at_event", 1);
+        }
+        for t in feats.tags() {
+            *by_feat.entry(t).or_insert(0) += 1;
+        }
+        let text: String = ops.iter().map(|o| o.text()).collect::<Vec<_>>().join(";");
+        let h = fnv(text.as_bytes());
+        for (k, (evn, worked)) in out.event_kinds.iter().enumerate() {
+            *by_event.entry(format!("{}/{}{}", evn, if feats.wal { "wal_on" } else { "wal_off" }, if *worked { "/did_work" } else { "" })).or_insert(0) += 1;
+            if *worked {
+                ctx.nontrivial(h ^ (k as u64 + 1).wrapping_mul(0x9E3779B97F4A7C15));
+            }
+        }
+        if out.viol.is_none() && out.soft.is_empty() && ctx.samples.len() < 3 && out.events_judged >= 3 {
+            ctx.sample(json!({"features": feats.tags(), "history": out.log.iter().take(40).collect::<Vec<_>>()}));
+        }
+        if !out.stmt_error_samples.is_empty() && ctx.extra.get("statement_error_samples").map(|v| v.as_array().map(|a| a.len()).unwrap_or(0)).unwrap_or(0) < 6 {
+            let mut cur: Vec<J> = ctx.extra.get("statement_error_samples").and_then(|v| v.as_array().cloned()).unwrap_or_default();
+            cur.push(json!(out.stmt_error_samples[0]));
+            ctx.extra.insert("statement_error_samples".into(), J::Array(cur));
+        }
+        let all: Vec<Viol> = out.soft.iter().cloned().chain(out.viol.iter().cloned()).collect();
+        for v in all {
+            let known = ctx.is_known(&v.sig).is_some();
+            let mut minimal: Option<Vec<String>> = None;
+            let mut minimal_detail: Option<J> = None;
+            if !known && !shrunk.contains(&v.sig) && shrunk.len() < max_shrinks && ctx.elapsed() < budget_s {
+                shrunk.insert(v.sig.clone());
+                let sdir = scratch.dir("shrink");
+                let pdir = scratch.dir("shrinkcopy");
+                let small = shrink(&ops, feats.wal, &v.sig, &sdir, &pdir, if quick { 40 } else { 120 });
+                let again = run_history(&small, feats.wal, &sdir, &pdir, false);
+                minimal_detail = again.viol.iter().chain(again.soft.iter()).find(|x| x.sig == v.sig).map(|x| x.detail.clone());
+                minimal = Some(small.iter().map(|o| o.text()).collect());
+            }
+            if !known && (!first_of_sig.contains_key(&v.sig) || (minimal.is_some() && first_of_sig[&v.sig].get("minimal_history").map(|m| m.is_null()).unwrap_or(true))) && first_of_sig.len() < 60 {
+                first_of_sig.insert(v.sig.clone(), json!({"minimal_history": minimal.clone(), "minimal_detail": minimal_detail.clone(), "detail": v.detail.clone(), "features": feats.tags()}));
+            }
+            ctx.violation(&v.assertion, &v.sig, json!({"features": feats.tags(), "event_index": v.op_index, "detail": v.detail, "history": out.log, "minimal_history": minimal, "minimal_detail": minimal_detail}));
+        }
+    }
+    for h in handles {
+        let _ = h.join();
+    }
+    ctx.extra.insert("events_by_kind".into(), json!(by_event));
+    ctx.extra.insert("histories_by_feature".into(), json!(by_feat));
+    if !first_of_sig.is_empty() {
+        ctx.extra.insert("unexplained_first_of_signature".into(), json!(first_of_sig));
+    }
+    ctx.assumptions.push("AUTO_INCREMENT assigns last+1 to two consecutive auto-assigned inserts (README: sequential values); PRAGMA wal is a per-handle setting and is re-issued after every open; statement results are not judged (only counted) so DML-semantics defects cannot raise a C04 alarm; a copy of the database directory is only opened while no handle is open; after every reopen the harness reports a failing clean INSERT once and then advances the row-id counter (which restarts at 1 on open) with a scratch table zz_burn<n>, so that the rest of the history keeps its rows".into());
+    ctx.finish()
 }
